@@ -14,6 +14,7 @@ type GenOptions struct {
 	Foreign    bool // allow differences that forward updates of other sequences, and unknown channels
 	Faults     bool // allow transient failures of difference requests
 	Fresh      bool // allow channels without stored state (met during the run) and access hashes learnt late
+	Users      bool // messages refer to users whose access hash may be unknown (the container is dropped, the difference fetched)
 	Seq        bool // number containers (seq / seq_start): they go through the seq box (gaps, duplicates, late arrivals)
 }
 
@@ -83,6 +84,9 @@ func Gen(r *hc.RNG, o GenOptions) (Scenario, map[int]bool) {
 			k = KChOther // an update of a channel nobody knows the access hash of
 		}
 		e := Entry{ID: id, Kind: k, Count: 1}
+		if o.Users && k == KMsg && r.Chance(60) {
+			e.User = r.Range(1, 3)
+		}
 		if k == KOther || k == KChOther || k == KAff || k == KChAff {
 			e.Count = hc.Pick(r, 1, 1, 1, 2, 3)
 		}
@@ -137,6 +141,17 @@ func Gen(r *hc.RNG, o GenOptions) (Scenario, map[int]bool) {
 		return a
 	}
 	i := 0
+	if o.Users && r.Chance(60) { // some users are known from the start
+		var us []int
+		for u := 1; u <= 3; u++ {
+			if r.Bool() {
+				us = append(us, u)
+			}
+		}
+		if len(us) > 0 {
+			s.Actions = append(s.Actions, Action{Op: "U", IDs: us})
+		}
+	}
 	if r.Chance(25) { // part of the log happened while the client was offline
 		k := r.Range(1, n)
 		s.Actions = append(s.Actions, Action{Op: "e", N: k})
@@ -325,9 +340,16 @@ func Gen(r *hc.RNG, o GenOptions) (Scenario, map[int]bool) {
 	for _, a := range s.Actions {
 		// (a numbered container that is overtaken by a difference is dropped by the seq box with its
 		// position-less updates: only unnumbered pushes promise their delivery)
+		// … and a container with a message from a user whose access hash is unknown is dropped as a whole
 		if a.Op == "p" || a.Op == "X" {
+			gated := false
 			for _, id := range a.IDs {
-				if s.Log[id-1].Kind == KPlain {
+				if s.Log[id-1].User != 0 {
+					gated = true
+				}
+			}
+			for _, id := range a.IDs {
+				if s.Log[id-1].Kind == KPlain && !gated {
 					pushedPlain[id] = true
 				}
 			}
